@@ -26,15 +26,18 @@ Max2(a, b) == IF a > b THEN a ELSE b
 
 \* RSCache actions as seen through the hooks: Lock, Loop (one append), Return
 HookTags(e) ==
-  LET h == Get(holder, e.enc, 0)
+  LET hs == Get(holder, e.enc, {})       \* goroutines between rs.locked and rs.unlock on this encoder's cache lock
       n == Get(clen, e.enc, 1)            \* a fresh encoder caches the degree-0 polynomial only
   IN CASE e.ev = "rs.wait" -> <<>>
-       [] e.ev = "rs.locked" -> (IF h # 0 THEN <<"mutual-exclusion">> ELSE <<>>) \o (IF e.b # n THEN <<"cache-length">> ELSE <<>>)
-       [] e.ev = "rs.extend" -> (IF h # e.gid THEN <<"mutual-exclusion">> ELSE <<>>)
+       \* Several goroutines may be inside at once if the lock admits readers; what RSCache!MutualExclusion demands of the code is that the
+       \* cache is only ever CHANGED by a goroutine that is alone inside, and that nobody leaves who did not get in.
+       [] e.ev = "rs.locked" -> (IF e.b # n THEN <<"cache-length">> ELSE <<>>)
+       [] e.ev = "rs.extend" -> (IF hs # {e.gid} THEN <<"mutual-exclusion">> ELSE <<>>)
                                 \o (IF e.b # n + 1 \/ e.a # n THEN <<"cache-append-only">> ELSE <<>>)
-       [] e.ev = "rs.unlock" -> (IF h # e.gid THEN <<"mutual-exclusion">> ELSE <<>>)
+       [] e.ev = "rs.unlock" -> (IF e.gid \notin hs THEN <<"mutual-exclusion">> ELSE <<>>)
                                 \o (IF e.b # n THEN <<"cache-length">> ELSE <<>>)
-                                \o (IF e.enc \in DOMAIN atlock /\ e.b # Max2(atlock[e.enc], e.a + 1) THEN <<"cache-growth">> ELSE <<>>)
+                                \* a goroutine that extended the cache while inside leaves it long enough for the degree it asked for
+                                \o (IF e.gid \in DOMAIN atlock /\ e.b > atlock[e.gid] /\ e.b < e.a + 1 THEN <<"cache-growth">> ELSE <<>>)
        [] e.ev = "go.spawn" -> <<>>
        [] e.ev = "go.exit" -> IF livegor <= 0 THEN <<"goroutine-accounting">> ELSE <<>>
        [] e.ev = "qr.split" -> IF e.a # 8 * e.b THEN <<"pipeline-produced-consumed-mismatch">> ELSE <<>>
@@ -57,10 +60,10 @@ Step ==
   /\ LET e == Trace[l]
          t == Tags(e)
      IN /\ bad' = bad \o [i \in 1..Len(t) |-> [l |-> l, why |-> t[i]]]
-        /\ holder' = IF e.op = "hook" /\ e.ev = "rs.locked" THEN Put(holder, e.enc, e.gid)
-                     ELSE IF e.op = "hook" /\ e.ev = "rs.unlock" THEN Put(holder, e.enc, 0) ELSE holder
+        /\ holder' = IF e.op = "hook" /\ e.ev = "rs.locked" THEN Put(holder, e.enc, Get(holder, e.enc, {}) \cup {e.gid})
+                     ELSE IF e.op = "hook" /\ e.ev = "rs.unlock" THEN Put(holder, e.enc, Get(holder, e.enc, {}) \ {e.gid}) ELSE holder
         /\ clen' = IF e.op = "hook" /\ e.ev \in {"rs.locked", "rs.extend", "rs.unlock"} THEN Put(clen, e.enc, e.b) ELSE clen
-        /\ atlock' = IF e.op = "hook" /\ e.ev = "rs.locked" THEN Put(atlock, e.enc, e.b) ELSE atlock
+        /\ atlock' = IF e.op = "hook" /\ e.ev = "rs.locked" THEN Put(atlock, e.gid, e.b) ELSE atlock      \* cache length each goroutine saw when it got in
         /\ livegor' = IF e.op = "hook" /\ e.ev = "go.spawn" THEN livegor + 1 ELSE IF e.op = "hook" /\ e.ev = "go.exit" THEN livegor - 1 ELSE livegor
         /\ memo' = IF e.op \in {"cencode", "ref"} /\ ~\E m \in memo : m.k = e.key THEN memo \cup {[k |-> e.key, v |-> e.digest]} ELSE memo
         /\ acq' = IF e.op = "hook" /\ e.ev = "rs.locked" /\ "client" \in DOMAIN e THEN Append(acq, e.client) ELSE acq
